@@ -177,13 +177,14 @@ class Strategy:
             sl = [a, rng.choice([-1] + [b for b in range(m) if b != a])]  # -1: all links into a
         self.slow = sl
         self.event_hold_p = p.get('event_hold_p', rng.choice((0.0, 0.3, 0.7)))
+        self.cut = p.get('cut', [0, 1, 1])
 
     def describe(self):
         return {'sched': self.sched, 'deliver': self.deliver, 'weights': self.weights,
                 'prio': self.prio, 'change_points': sorted(self.change_points),
                 'burst_mean': self.burst_mean, 'reorder_p': self.reorder_p,
                 'hold_budget': self.hold_budget, 'hold_p': self.hold_p, 'slow': self.slow,
-                'event_hold_p': self.event_hold_p}
+                'event_hold_p': self.event_hold_p, 'cut': self.cut}
 
     # -- which party
     def pick(self, rng, enabled, step):
@@ -215,6 +216,12 @@ class Strategy:
     def bytes(self, rng, pipe, avail):
         k = self.deliver
         if k == 'eager':
+            return 0
+        if k == 'cutat':
+            # deliver exactly up to absolute stream offset `cut` of one directed pipe, then everything
+            src, dst, off = self.cut
+            if pipe.src == src and pipe.dst == dst and pipe.delivered < off < pipe.delivered + avail:
+                return 1 + (off - pipe.delivered)
             return 0
         if k == 'chunks':
             if rng.random() < 0.5:
